@@ -10,6 +10,11 @@ import Anko.Proofs.EvalMono
 import Anko.Gen.ScopeFlow
 import Anko.Gen.BindFlow
 import Anko.Props.BindFlowTable
+import Anko.Props.Tie.BindFlow
+import Anko.Props.Tie.EnvFlow
+import Anko.Props.Tie.StmtFlow
+import Anko.Props.Tie.CallFlow
+import Anko.Props.Tie.SingleStmtFlow
 
 set_option linter.unusedSectionVars false
 set_option linter.unusedSimpArgs false
@@ -256,6 +261,21 @@ Every leaf statement of funcExpr (the function literal: the scope a call gets is
 of a named function is bound in the defining scope), runModuleStmt, runVarStmt and runLetsStmt, with the conditions it stands under, is the one
 written down in Props/BindFlowTable next to the model's callFn / execStmt. Any edit of these functions - also a harmless one - breaks this obligation by name; the check then
 searches model and implementation for a failing input (DESIGN.md 13.3). -/
-theorem bindings_are_made_where_modelled : Gen.BindFlow.leaves = Tables.bindFlow := by decide +kernel
+theorem bindings_are_made_where_modelled : Gen.BindFlow.leaves = Tables.bindFlow := Tie.bindFlow
+
+/-! ### Shared source ties
+
+The code this property is anchored in is also written down, leaf statement by leaf statement, by the tables below (each decided once in
+Props/Tie, `decide +kernel`, against the table regenerated from /repo on this run). A change of that code breaks the tie by name here too, and the check of
+this property then searches for a failing input - so a change that breaks this property through code whose primary table belongs to another
+property is not overlooked. -/
+/-- the environment API (env/*.go) -/
+theorem source_tie_EnvFlow : Gen.EnvFlow.leaves = Tables.envFlow := Tie.envFlow
+/-- the branch, loop, try and defer functions (vmStmt.go) -/
+theorem source_tie_StmtFlow : Gen.StmtFlow.leaves = Tables.stmtFlow := Tie.stmtFlow
+/-- the call machinery (vmExprFunction.go) -/
+theorem source_tie_CallFlow : Gen.CallFlow.leaves = Tables.callFlow := Tie.callFlow
+/-- the statement dispatcher, return, defer, deferred calls -/
+theorem source_tie_SingleStmtFlow : Gen.SingleStmtFlow.leaves = Tables.singleStmtFlow := Tie.singleStmtFlow
 
 end Anko.C04
